@@ -54,7 +54,9 @@ var (
 	SpecialStrings = []string{"<b>", "a&b", "\"q\"", "it's", "<script>alert('x')</script>", "&amp;", "&lt;", "a<b>c&d\"e'f", ">", "&"}
 	UnicodeStrings = []string{"héllo", "中文", "naïve café", "Ω≈ç", "日本語テキスト"}
 	AstralStrings  = []string{"😀", "a😀b", "𝒳"}
-	EscapeStrings  = []string{"a\nb", "tab\there", "back\\slash", "cr\rlf", "\b\f", "q'q"}
+	EscapeStrings  = []string{"a\nb", "tab\there", "back\\slash", "cr\rlf", "\b\f", "q'q",
+		// characters outside ASCII before, between and after escapes (Latin-1, two-, three- and four-byte encodings)
+		"\u00e9\tb", "caf\u00e9\n", "\n\u00e9", "\u4e2d\n\u6587", "\U0001F600\\x", "\u00fc'\u00e9\n", "\u00ff\t\u0100", "a\u00a0\nb"}
 )
 
 // Opts selects features of generated programs.
@@ -678,7 +680,7 @@ func (g *G) strLit() ref.Expr {
 
 // ---- template bodies
 
-var rawWords = []string{"foo", "bar", "Hello", "x1", "-", ":", "ok.", "(", ")", "=", "42", "é", "%", "#", ";", "!"}
+var rawWords = []string{"foo", "bar", "Hello", "x1", "-", ":", "ok.", "(", ")", "=", "42", "é", "%", "#", ";", "!", "\u00a0", "n\u3000"}
 var rawSpecials = []string{"<b>", "</b>", "<br>", "&amp;", "<i class=\"k\">", "'", "\"", "a<b", "&"}
 
 func (g *G) rawText() *ref.Raw {
